@@ -158,6 +158,10 @@ func (f *Frame) applyContract(cur *blockCur, in ssa.Instruction, con *Contract, 
 	c := f.c
 	if con.External {
 		c.assume(fmt.Sprintf("external contract assumed: %s", con.Func))
+	} else {
+		for _, a := range args {
+			f.checkTypeInv(cur, a, in, "argument of "+con.Func)
+		}
 	}
 	env := &SpecEnv{c: c, f: nil, st: cur.st, old: cur.st, names: map[string]Val{}}
 	var sig *types.Signature
@@ -380,6 +384,10 @@ func (e *Engine) verifyFunc(con *Contract) *FuncResult {
 		}
 		if isPointerLike(p.Type()) {
 			c.inputRefs = append(c.inputRefs, v.S)
+			if pt, ok := p.Type().Underlying().(*types.Pointer); ok && c.hasTypeInv(pt.Elem()) {
+				obj := c.load(st, &Ptr{Root: v.S, Obj: pt.Elem()}, pt.Elem())
+				facts = append(facts, fmt.Sprintf("(=> (not (= %s 0)) %s)", v.S, c.userTypeInv(Val{T: pt.Elem(), S: obj})))
+			}
 		}
 		if sl, ok := p.Type().Underlying().(*types.Slice); ok {
 			_ = sl
@@ -469,6 +477,10 @@ func (f *Frame) frameObligations() {
 	c := f.c
 	con := f.con
 	if con == nil || con.ModAll || con.Options["noframe"] != "" {
+		return
+	}
+	if len(con.Modifies) == 0 && c.eng.inferNoMods(f.fn) {
+		c.assume("frame of " + con.Func + " inferred syntactically (stores only to objects the function created)")
 		return
 	}
 	// keys possibly modified by the body
